@@ -1,9 +1,11 @@
+#![feature(sized_hierarchy)]
 use vstd::prelude::*;
 use core::num::NonZeroU32;
 use core::iter::Enumerate;
 verus! {
 //@include parts/cw_core.tpl
 //@include parts/cw_iter.tpl
+//@include asref.rs
 //@item src/lib.rs struct Match
 //@include ghost_iter_cw.rs
 //@item src/charwise/iter.rs struct FindOverlappingNoSuffixIterator
